@@ -610,6 +610,295 @@ def shared_shallow_problems(rng):
 # ----------------------------------------------------------------------------- oracle on the real code
 
 
+# ----------------------------------------------------------------------------- mirror recipes (exact expected LP)
+#
+# A recipe is ONE Python function `build(B)` run on two back-ends: B = OptyxB (the real API of the tree under test)
+# and B = AffB (exact affine arithmetic over Fractions, below).  Whatever NumPy array / scalar type, operator form or
+# view the recipe uses, the Aff run yields the affine function the user *wrote* — independent of optyx's expression
+# construction, folding, and extraction — and the extracted LP is compared with it entry by entry.
+
+
+def _num(v):
+    """exact rational value of a user-supplied number of any type"""
+    if isinstance(v, Aff):
+        if any(c != 0 for c in v.co.values()):
+            raise NotAffine("non-constant used as a number")
+        return v.k
+    if isinstance(v, np.ndarray):
+        if v.ndim != 0:
+            raise NotAffine("array used as a scalar")
+        v = v.item()
+    if isinstance(v, (bool, np.bool_)):
+        return Fraction(int(v))
+    if isinstance(v, (int, np.integer)):
+        return Fraction(int(v))
+    if isinstance(v, Fraction):
+        return v
+    return Fraction(float(v))
+
+
+class NotAffine(Exception):
+    pass
+
+
+class Aff:
+    """exact affine function Σ co[name]·name + k"""
+    __array_ufunc__ = None
+    __slots__ = ("co", "k")
+
+    def __init__(self, co=None, k=0):
+        self.co = {n: c for n, c in (co or {}).items() if c != 0}
+        self.k = Fraction(k)
+
+    @staticmethod
+    def var(name):
+        return Aff({name: Fraction(1)})
+
+    @staticmethod
+    def lift(o):
+        return o if isinstance(o, Aff) else Aff(None, _num(o))
+
+    def is_const(self):
+        return not self.co
+
+    def __add__(s, o):
+        o = Aff.lift(o)
+        co = dict(s.co)
+        for n, c in o.co.items():
+            co[n] = co.get(n, 0) + c
+        return Aff(co, s.k + o.k)
+    __radd__ = __add__
+
+    def __neg__(s):
+        return Aff({n: -c for n, c in s.co.items()}, -s.k)
+
+    def __sub__(s, o):
+        return s + (-Aff.lift(o))
+
+    def __rsub__(s, o):
+        return Aff.lift(o) - s
+
+    def __mul__(s, o):
+        o = Aff.lift(o)
+        if o.is_const():
+            return Aff({n: c * o.k for n, c in s.co.items()}, s.k * o.k)
+        if s.is_const():
+            return Aff({n: c * s.k for n, c in o.co.items()}, s.k * o.k)
+        raise NotAffine("product of two non-constants")
+    __rmul__ = __mul__
+
+    def __truediv__(s, o):
+        q = _num(o)
+        if q == 0:
+            raise ZeroDivisionError
+        return Aff({n: c / q for n, c in s.co.items()}, s.k / q)
+
+    def __pow__(s, o):
+        q = _num(o)
+        if q == 1:
+            return s
+        if q == 0:
+            return Aff(None, 1)
+        if s.is_const() and q.denominator == 1 and q > 0:
+            return Aff(None, s.k ** int(q))
+        raise NotAffine("power")
+
+
+class AffVec:
+    __array_ufunc__ = None
+
+    def __init__(self, items):
+        self.items = list(items)
+
+    def __len__(self): return len(self.items)
+    def __iter__(self): return iter(self.items)
+
+    def __getitem__(self, i):
+        r = self.items[i]
+        return AffVec(r) if isinstance(i, slice) else r
+
+    def _zip(self, o, f):
+        if isinstance(o, AffVec):
+            if len(o) != len(self):
+                raise NotAffine("length")
+            return AffVec([f(a, b) for a, b in zip(self.items, o.items)])
+        if isinstance(o, (np.ndarray, list, tuple)) and np.ndim(o) == 1:
+            return AffVec([f(a, b) for a, b in zip(self.items, list(np.asarray(o).tolist()))])
+        return AffVec([f(a, o) for a in self.items])
+
+    def __add__(s, o): return s._zip(o, lambda a, b: a + b)
+    __radd__ = __add__
+    def __sub__(s, o): return s._zip(o, lambda a, b: a - b)
+    def __rsub__(s, o): return s._zip(o, lambda a, b: b - a)
+    def __mul__(s, o): return s._zip(o, lambda a, b: a * b)
+    __rmul__ = __mul__
+    def __truediv__(s, o): return s._zip(o, lambda a, b: a / b)
+    def __neg__(s): return AffVec([-a for a in s.items])
+    def __pow__(s, o): return AffVec([a ** o for a in s.items])
+
+    def sum(self):
+        t = Aff()
+        for a in self.items:
+            t = t + a
+        return t
+
+    def _mat(self, A, left):
+        A = np.asarray(A)
+        rows = A.tolist()
+        if A.ndim == 1:
+            if len(rows) != len(self):
+                raise NotAffine("length")
+            t = Aff()
+            for c, a in zip(rows, self.items):
+                t = t + a * c
+            return t
+        if A.ndim == 2 and left:
+            return AffVec([AffVec(self.items)._mat(np.asarray(r, dtype=object), True) if False else _rowdot(r, self.items) for r in rows])
+        raise NotAffine("matmul form")
+
+    def __rmatmul__(self, A): return self._mat(A, True)
+    def __matmul__(self, A): return self._mat(A, False) if np.ndim(A) == 1 else (_ for _ in ()).throw(NotAffine("v @ matrix"))
+
+    def dot(self, o):
+        raise NotAffine("dot product")
+
+
+def _rowdot(row, items):
+    if len(row) != len(items):
+        raise NotAffine("length")
+    t = Aff()
+    for c, a in zip(row, items):
+        t = t + a * c
+    return t
+
+
+class AffB:
+    """the exact back-end: mirrors the modelling objects of an OptyxB by the *names* of their variables"""
+    exact = True
+
+    def __init__(self, ob):
+        self.ob = ob
+
+    def vec(self, key):
+        return AffVec([Aff.var(v.name) for v in self.ob.vec(key)])
+
+    def var(self, key):
+        return Aff.var(self.ob.var(key).name)
+
+    def const(self, k):
+        return Aff(None, _num(k))
+
+    def matmul(self, A, v):
+        return v.__rmatmul__(A)
+
+    def le(self, a, b): return (Aff.lift(a) - Aff.lift(b), "<=")
+    def ge(self, a, b): return (Aff.lift(a) - Aff.lift(b), ">=")
+    def eq(self, a, b): return (Aff.lift(a) - Aff.lift(b), "==")
+
+
+class OptyxB:
+    """the real back-end; `objs` maps keys to modelling objects / views (built once per case by `setup`)"""
+    exact = False
+
+    def __init__(self, objs):
+        self.objs = objs
+
+    def vec(self, key): return self.objs[key]
+    def var(self, key): return self.objs[key]
+
+    def const(self, k):
+        from optyx.core.expressions import Constant
+        return Constant(k)
+
+    def matmul(self, A, v):
+        from optyx.core.matrices import matmul
+        return matmul(A, v)
+
+    def le(self, a, b): return a <= b
+    def ge(self, a, b): return a >= b
+    def eq(self, a, b): return a.eq(b)
+
+
+class Case:
+    """a problem with (optionally) the exact LP the user wrote, and what to do with it"""
+
+    def __init__(self, tag, P, expect=None, corr=True, rel_tol=None, arrays=()):
+        self.tag, self.P, self.expect, self.corr, self.rel_tol = tag, P, expect, corr, rel_tol
+        self.arrays = [(a, a.tobytes(), a.dtype, a.shape, a.strides) for a in arrays if isinstance(a, np.ndarray)]
+
+
+def mirror_case(tag, setup, build, corr=True, rel_tol=None):
+    """run `build` on both back-ends; returns a Case or None (the API refuses the form / the recipe is not affine)"""
+    from optyx import Problem
+
+    arrays = []
+    try:
+        with warnings.catch_warnings():
+            warnings.simplefilter("ignore")
+            objs = setup()
+            ob = OptyxB(objs)
+            obj, sense, cons = build(ob, arrays)
+            P = Problem()
+            (P.minimize if sense == "min" else P.maximize)(obj)
+            for c in cons:
+                P.subject_to(c)
+    except RecursionError:
+        raise
+    except Exception as ex:  # noqa: BLE001
+        return ("build", f"{type(ex).__name__}")
+    try:
+        eobj, esense, econs = build(AffB(ob), [])
+        expect = {"obj": Aff.lift(eobj), "sense": esense, "cons": [(Aff.lift(e), s) for e, s in econs]}
+    except (NotAffine, ZeroDivisionError, OverflowError) as ex:
+        expect = None
+    return Case(tag, P, expect, corr, rel_tol, arrays)
+
+
+def expect_oracle(case, lp):
+    """the extracted LP against the exact affine functions of the recipe"""
+    ex = case.expect
+    fails = []
+    names = list(lp.variables)
+    F = lambda t: Fraction(float(t))
+    tol = case.rel_tol
+
+    def same(want, got):
+        if tol is None:
+            return want == got
+        if want == 0:
+            return got == 0
+        return abs(got - want) <= Fraction(tol) * abs(want)
+
+    def check_row(what, aff, row, const_got, sign):
+        foreign = [n for n in aff.co if n not in names]
+        if foreign:
+            fails.append({"what": f"{what}: variable(s) of the user's expression missing from LP.variables", "missing": foreign})
+            return
+        for i, n in enumerate(names):
+            want = sign * aff.co.get(n, Fraction(0))
+            if not same(want, F(row[i])):
+                fails.append({"what": f"{what}: coefficient of {n} differs from what the user wrote", "got": repr(float(row[i])), "want": str(want)})
+                return
+        if not same(sign * aff.k, const_got):
+            fails.append({"what": f"{what}: constant differs from what the user wrote", "got": str(const_got), "want": str(sign * aff.k)})
+
+    if lp.sense != ex["sense"]:
+        fails.append({"what": "sense differs from the recipe", "got": lp.sense})
+    check_row("objective", ex["obj"], list(lp.c), F(lp.c0), 1)
+    ub = [(a, s) for a, s in ex["cons"] if s != "=="]
+    eq = [(a, s) for a, s in ex["cons"] if s == "=="]
+    Aub = lp.A_ub if lp.A_ub is not None else []
+    Aeq = lp.A_eq if lp.A_eq is not None else []
+    if len(Aub) != len(ub) or len(Aeq) != len(eq):
+        fails.append({"what": "number of rows differs from the recipe", "got": [len(Aub), len(Aeq)], "want": [len(ub), len(eq)]})
+        return fails
+    for r, (a, s) in enumerate(ub):
+        check_row(f"{s} constraint (ub row {r})", a, list(Aub[r]), -F(lp.b_ub[r]), -1 if s == ">=" else 1)
+    for r, (a, s) in enumerate(eq):
+        check_row(f"== constraint (eq row {r})", a, list(Aeq[r]), -F(lp.b_eq[r]), 1)
+    return fails
+
+
 class SkipPoint(Exception):
     pass
 
